@@ -31,6 +31,7 @@ func runC07(c *Ctx) {
 	c07Returns(c)
 	c07Tables(c)
 	c07Payload(c)
+	c07BlobDescriptor(c)
 	_ = w
 	c.MinCount("", 20, "agreement obligations")
 }
@@ -593,5 +594,111 @@ func c07Payload(c *Ctx) {
 	}
 	if gd == nil {
 		c.Unk("payload/blob-digest-algorithm", "anchor: the signer function that looks up the digest algorithm", "-", "not found")
+	}
+}
+
+// ---- (e) blob descriptor ---------------------------------------------------
+
+// c07BlobDescriptor: who invokes a BlobDescriptorGenerator and with what; the
+// generator both wrappers build is the same function of the caller's options.
+func c07BlobDescriptor(c *Ctx) {
+	w := c.W
+	// every invocation of a generator passes algorithms[<hash of the signature algorithm / key spec>]
+	n := 0
+	for _, fn := range w.Funcs {
+		for _, ci := range allCalls(fn) {
+			call, ok := ci.(*ssa.Call)
+			if !ok || call.Call.IsInvoke() || staticCallee(call) != nil {
+				continue
+			}
+			if namedOf(call.Call.Value.Type()) != "ngo.BlobDescriptorGenerator" {
+				continue
+			}
+			n++
+			c.Evals++
+			c.SeenFn(fn.String())
+			d := desc(call.Call.Args[0])
+			ok2 := (strings.HasPrefix(d, "global:ngo/signer.algorithms[") || strings.HasPrefix(d, "global:ngo/verifier.algorithms[")) &&
+				strings.Contains(d, "call:(core/internal/algorithm.Algorithm).Hash(")
+			c.Check(ok2, fmt.Sprintf("blob-descriptor/generator-call/%s", fnName(fn)), "who-may-call: a blob descriptor generator is invoked only with algorithms[hash bound to the signing key / signature algorithm] (signer and verifier derive the digest algorithm the same way)", w.InstrPos(call),
+				"the generator is invoked with "+d)
+		}
+	}
+	if n < 2 {
+		c.Unk("blob-descriptor/generator-call#count", "vacuity guard: the signer and the verifier each invoke the generator", "-", fmt.Sprintf("%d invocations found", n))
+	}
+	// both wrappers build the generator from the caller's raw options with the same builder
+	var builder *ssa.Function
+	shapes := map[string]string{}
+	for _, name := range []string{"SignBlob", "VerifyBlob"} {
+		fn := w.Func("", name)
+		if fn == nil {
+			c.Unk("blob-descriptor/wrapper/"+name, "anchor: notation."+name, "-", "not found")
+			continue
+		}
+		c.SeenFn(fn.String())
+		found := false
+		for _, ci := range allCalls(fn) {
+			call, ok := ci.(*ssa.Call)
+			if !ok {
+				continue
+			}
+			g := staticCallee(call)
+			if g == nil || !w.IsProductFn(g) || g.Signature.Results().Len() != 1 || namedOf(g.Signature.Results().At(0).Type()) != "ngo.BlobDescriptorGenerator" {
+				continue
+			}
+			found = true
+			if builder == nil {
+				builder = g
+			} else if builder != g {
+				c.Bad("blob-descriptor/same-builder", "sibling agreement: SignBlob and VerifyBlob build the descriptor generator with the same function", w.InstrPos(call), "different builders: "+fnName(builder)+" vs "+fnName(g))
+			}
+			var parts []string
+			for _, a := range call.Call.Args {
+				d := desc(a)
+				// normalise the options parameter name
+				for _, p := range fn.Params {
+					d = strings.ReplaceAll(d, "param:"+p.Name()+".BlobVerifierVerifyOptions.", "OPTS.")
+					d = strings.ReplaceAll(d, "param:"+p.Name()+".", "OPTS.")
+					d = strings.ReplaceAll(d, "param:"+p.Name(), "P:"+abbrev(p.Type().String()))
+				}
+				parts = append(parts, d)
+			}
+			shapes[name] = strings.Join(parts, " | ")
+		}
+		if !found {
+			c.Bad("blob-descriptor/wrapper/"+name, "the wrapper builds its descriptor generator with the shared builder", w.FnPos(fn), "no call of a function returning BlobDescriptorGenerator")
+		}
+	}
+	if len(shapes) == 2 {
+		okShape := shapes["SignBlob"] == shapes["VerifyBlob"] && strings.Contains(shapes["SignBlob"], "OPTS.ContentMediaType") && strings.Contains(shapes["SignBlob"], "OPTS.UserMetadata")
+		c.Check(okShape, "blob-descriptor/same-inputs", "sibling agreement: SignBlob and VerifyBlob hand the builder the same inputs — the reader, the caller's ContentMediaType and UserMetadata exactly as given (so the same option string signs and verifies)", w.FnPos(w.Func("", "SignBlob")),
+			"SignBlob passes ["+shapes["SignBlob"]+"], VerifyBlob passes ["+shapes["VerifyBlob"]+"]")
+	}
+	if builder != nil {
+		// the generator's closure: MediaType <- contentMediaType parameter, Digest <- digester.Digest(), Size <- io.Copy count; metadata added through the shared helper
+		c.SeenFn(builder.String())
+		for _, cl := range builder.AnonFuncs {
+			stored := map[string]string{}
+			for _, b := range cl.Blocks {
+				for _, in := range b.Instrs {
+					if st, ok := in.(*ssa.Store); ok {
+						if fa, ok := st.Addr.(*ssa.FieldAddr); ok && namedOf(fa.X.Type()) == "ocispec.Descriptor" {
+							stored[fieldName(fa.X.Type(), fa.Field)] = desc(st.Val)
+						}
+					}
+				}
+			}
+			okGen := stored["MediaType"] == "free:contentMediaType" && strings.HasPrefix(stored["Digest"], "call:invoke:digest.Digester.Digest(") && strings.HasPrefix(stored["Size"], "call:io.Copy(") && strings.Contains(stored["Size"], "free:reader")
+			c.Check(okGen, "blob-descriptor/generator-body", "the generated descriptor is {MediaType: the given content media type, Digest: digest of the bytes read with the requested algorithm, Size: number of bytes read}", w.FnPos(cl), fmt.Sprintf("fields: %v", stored))
+			// the digester comes from the algorithm argument
+			okAlg := false
+			for _, ci := range allCalls(cl) {
+				if call, ok := ci.(*ssa.Call); ok && calleeName(call) == "(digest.Algorithm).Digester" && strings.HasPrefix(desc(call.Call.Args[0]), "param:") {
+					okAlg = true
+				}
+			}
+			c.Check(okAlg, "blob-descriptor/generator-algorithm", "the digester is created from the algorithm the generator was called with", w.FnPos(cl), "the digest algorithm argument is not used")
+		}
 	}
 }
